@@ -5,6 +5,7 @@
 -/
 import FlacModel.Props.C01c
 import FlacModel.Props.C11
+import FlacModel.Props.C07b
 
 namespace Flac.C01
 open Flac Gen
